@@ -10,8 +10,8 @@ LEVEL = "exploration"
 RULE = ("Wrapper chains of length 1..7 over synthetic manager objects (unwrap_context hook returning None / the next manager / "
         "PRUNE / itself / the head of the chain; falsy (empty-container-like) managers included; elaborate_context hook setting any subset of description, children, "
         "inner_stack, or replacing context.obj by another manager of the chain) and generator-based managers made by three "
-        "@contextmanager functions (with an unwrap_context_generator hook returning None / next / PRUNE, without a hook, and one "
-        "delegating with `yield from`); is_exiting on or off; each case run three ways - fill_context(Context(...)) outside any "
+        "@contextmanager functions (with an unwrap_context_generator hook returning None / next / PRUNE, without a hook, one "
+        "delegating with `yield from`, and one holding a manager of its own whose context the hook must see on its Frame); is_exiting on or off; each case run three ways - fill_context(Context(...)) outside any "
         "extraction, the same from inside a hook of a running extract(), and (non-exiting) through a real frame holding the "
         "head manager in a with block - on CPython 3.9-3.12. Oracle: a reference loop over the documented rule gives the "
         "expected hook-invocation log (elaborate on the original, unwrap, reset, elaborate again, ...) and the expected final "
@@ -33,7 +33,7 @@ def cases():
         "falsy": st.sampled_from([False, False, False, True]),
     })
     gcm = st.fixed_dictionaries({
-        "t": st.just("gcm"), "fn": st.sampled_from(["a", "a", "b", "c"]),
+        "t": st.just("gcm"), "fn": st.sampled_from(["a", "a", "b", "c", "d", "d"]),
         "hook": st.sampled_from(["next", "next", "none", "prune"]),
     })
     return st.fixed_dictionaries({"links": st.lists(st.one_of(mg, mg, gcm), min_size=1, max_size=7),
@@ -77,7 +77,7 @@ def model(case):
             if not case["exiting"]:
                 s["inner"] = "gen%d" % cur
             s["desc"] = "GLUE"
-            if L["fn"] in ("a", "c"):
+            if L["fn"] in ("a", "c", "d"):
                 log.append(["ucg", cur, True])
                 r = L["hook"]
             else:
